@@ -326,3 +326,18 @@ def run(ctx):
            "model_configuration_matched": ("Cfg{%s}" % ", ".join("%s=%s" % (FIXES[b], bool((best >> b) & 1)) for b in FIXES)) if best is not None else "none",
            "ops_differing_from_all_checks_model_without_property_violation": variant_ops}
     return cov, findings, known_hits
+
+
+# --- TSX ops (named pools, rate limiter, memcache key, every attach site): a second correspondence, checklib/models/tsx.py
+import os as _os, sys as _sys
+_sys.path.insert(0, _os.path.join(_os.path.dirname(_os.path.dirname(_os.path.abspath(__file__))), "models"))
+import tsx as _tsx
+ASSUMPTIONS = [a for a in ASSUMPTIONS if not a.startswith("rate limiter")] + _tsx.ASSUMPTIONS
+TRUSTED = TRUSTED + _tsx.TRUSTED
+UNPROVED = UNPROVED + ["Relic.Props.C10.attach_site_vsix_genuine_full (false on the unchanged tree: attach_site_vsix_unchecked, finding F52; "
+                       "proved: attach_site_vsix_genuine_partial = without a memcache, and attach_site_genuine for every site that checks)"]
+_run_c10 = run
+
+
+def run(ctx):
+    return _tsx.combined(ctx, _run_c10, "C10")
